@@ -966,6 +966,11 @@ def annotate_ancestry(node):
                         ),
                     )
                 )
+
+                if child_node.args.kwarg is not None:
+                    child_node.args.kwarg._location = child_node._location + [
+                        child_node.args.kwarg.arg
+                    ]
     return node
 
 
@@ -1076,6 +1081,14 @@ class RewriteAtQuery(NodeTransformer):
                         arg_l[idx] = emit_arg(self.replacement_node)
                         self.replaced = True
                         break
+
+            if (
+                not self.replaced
+                and node.args.kwarg is not None
+                and getattr(node.args.kwarg, "_location", None) == self.search
+            ):
+                node.args.kwarg = emit_arg(self.replacement_node)
+                self.replaced = True
 
         return node
 
